@@ -26,6 +26,7 @@ def run(P, rep, tier):
     rep.assumptions += ['tokenize() gives the first token of a buffer at_bol=true/has_space=false (checked on the empty buffer and by the fresh-token wiring obligations)',
                         'loops over token lists are analysed for 0..2 generic iterations', 'clang 14 typed AST']
     protect = r_printer(P, rep)
+    r_join(P, rep)
     r_tokenize(P, rep)
     r_copy(P, rep)
     r_expand(P, rep, protect)
@@ -60,7 +61,7 @@ def r_printer(P, rep):
     fn = 'print_tokens'
     if fn not in u.functions:
         raise AnalysisBroken('anchor %s vanished from %s' % (fn, MU))
-    rep.rule('R19.1', 'print_tokens writes a newline before every token with at_bol (except the first), a space before a token with has_space, then exactly the token\'s spelling, and ends the output with a newline', floor=4)
+    rep.rule('R19.1', 'print_tokens writes a newline before every token with at_bol (except the first), a space before a token with has_space, then exactly the token\'s spelling, and ends the output with a newline', floor=5)
     outs = ('fprintf', 'fputs', 'fputc', 'putc', 'fwrite')
     it = PInterp(P, u, {'opaque': ['open_file'], 'cut': {k: None for k in outs}, 'loop_limit': 2, 'track_stores': True})
 
@@ -112,10 +113,10 @@ def r_printer(P, rep):
                 A.ob('R19.1', '%s:%s:newline-before-bol-token' % (MU, fn), '\n' in sep,
                      'a token that starts a line (at_bol%s) is written without a preceding newline: directives and line structure of the -E output are lost, and the last token of the previous line can fuse with it' % ('' if ab_must else ' not even consulted'),
                      where, facts)
-            if hs_may and not ab_must and not (i == 0 and not sep and False):
-                if i > 0 or True:
+            if hs_may and not ab_must and i > 0:
+                if True:
                     nseen['space'] += 1
-                    okk = (' ' in sep) or ('\n' in sep) or (i == 0)
+                    okk = (' ' in sep) or ('\n' in sep)
                     A.ob('R19.1', '%s:%s:space-before-spaced-token' % (MU, fn), okk,
                          'a token preceded by white space in the source (has_space%s) is written directly after the previous token: `a + ++b` becomes `a +++b`' % ('' if isinstance(hs, int) else ' not even consulted'),
                          where, facts)
@@ -137,6 +138,75 @@ def r_printer(P, rep):
 def _is_eof(it, u, t):
     k = it.settle(t.fields.get('kind')) if 'kind' in t.fields else None
     return k == u.enums.get('TK_EOF')
+
+
+def r_join(P, rep):
+    """the list handed to print_tokens went through preprocess(); a pass that merges tokens without re-spelling them makes
+    the printer drop text (adjacent string literals)"""
+    J = 'join_adjacent_string_literals'
+    pu = P.unit(PU)
+    mu = P.unit(MU)
+    if J not in pu.functions or 'preprocess' not in pu.functions:
+        return
+    # is the merged list the printed list?
+    printed_is_preprocessed = None
+    for fname, fd in mu.functions.items():
+        for c in fd.calls('print_tokens'):
+            a = c.args()[0].strip() if c.args() else None
+            if a is None or a.kind != 'DeclRefExpr':
+                continue
+            srcs = [b for b in fd.walk() if b.kind == 'BinaryOperator' and b.opcode == '=' and b.inner[0].strip().kind == 'DeclRefExpr'
+                    and b.inner[0].strip().ref_id == a.ref_id and b.line <= c.line]
+            if srcs and srcs[-1].inner[1].strip().kind == 'CallExpr' and srcs[-1].inner[1].strip().callee() == 'preprocess':
+                printed_is_preprocessed = (fname, c.line)
+    calls = pu.fn('preprocess').calls(J)
+    if not printed_is_preprocessed or not calls:
+        return
+    cond = [a.kind for a in calls[0].ancestors() if a.kind in ('IfStmt', 'ConditionalOperator', 'ForStmt', 'WhileStmt', 'DoStmt', 'SwitchStmt')]
+    where = '%s:%d' % (PU, pu.fn(J).line)
+    if cond:
+        rep.undecided('R19.1', '%s:%s:conditional' % (PU, J), 'the string-literal merging pass runs under a condition the rule does not evaluate', where=where)
+        return
+    E = pu.enums
+
+    def ty(n):
+        base = Obj('Type', lazy=False, fields={'size': 1, 'kind': 0})
+        return Obj('Type', lazy=False, fields={'base': base, 'array_len': n, 'size': n})
+
+    def tk(kind, loc, **kw):
+        f = {'kind': kind, 'loc': loc, 'len': len(loc), 'next': 0, 'at_bol': 0, 'has_space': 1}
+        f.update(kw)
+        return Obj('Token', lazy=False, label=loc, fields=f)
+    a = tk(E['TK_STR'], '"a"', ty=ty(2), str='a\0')
+    b = tk(E['TK_STR'], '"bc"', ty=ty(3), str='bc\0')
+    x = tk(E['TK_IDENT'], 'x')
+    e = tk(E['TK_EOF'], '')
+    a.fields['next'] = b; b.fields['next'] = x; x.fields['next'] = e
+
+    def m_array_of(it, ctx, n, args):
+        return Obj('Type', lazy=False, fields={'base': args[0], 'array_len': args[1], 'size': Sym('size')})
+    it = PInterp(P, pu, {'models': {'array_of': m_array_of, 'memcpy': lambda it_, ctx, n, args: args[0]}, 'loop_limit': 0})
+    try:
+        paths = it.explore(J, lambda ctx: [a], max_paths=64)
+    except AnalysisBroken as ex:
+        rep.undecided('R19.1', '%s:%s:not-followed' % (PU, J), 'the merging pass cannot be followed on a concrete list: %s' % ex, where=where)
+        return
+    if len(paths) != 1 or paths[0][1][0] != 'ret':
+        rep.undecided('R19.1', '%s:%s:not-followed' % (PU, J), 'the merging pass does not evaluate to one result on a concrete list', where=where)
+        return
+    lst, _ = chain(it, a)
+    sp = []
+    for t in lst:
+        loc, ln = t.fields.get('loc'), t.fields.get('len')
+        if not isinstance(loc, str) or not isinstance(ln, int):
+            rep.undecided('R19.1', '%s:%s:not-followed' % (PU, J), 'spelling of a token after the merging pass is not concrete', where=where)
+            return
+        sp.append(loc[:ln])
+    strs = ''.join(x_[1:-1] for x_ in sp if x_.startswith('"'))
+    rest = [x_ for x_ in sp if not x_.startswith('"')]
+    rep.ob('R19.1', '%s:%s:merged-literal-spelling' % (PU, J), strs == 'abc' and rest == ['x', ''],
+           'preprocess() merges adjacent string literals by unlinking the later tokens while the surviving token keeps the spelling (loc,len) of the first piece, and %s:%s prints that list: `"a" "bc" x` is printed as `%s` - the -E output denotes another program (sizeof("a" "bc") becomes sizeof("a"))' % (
+               MU, printed_is_preprocessed[0], ' '.join(x_ for x_ in sp if x_)), where=where, facts={'spellings after the pass': sp})
 
 
 # --------------------------------------------------------------------- tokenize ---
@@ -191,7 +261,7 @@ def r_tokenize(P, rep):
     for g in FLAGS:
         if g not in u.globals:
             raise AnalysisBroken('the tokenizer no longer keeps the flag %s in a file-scope variable' % g)
-    rep.rule('R19.2', 'separator flags propagate: new_token records and clears at_bol/has_space; every white-space-skipping arm of tokenize (blank, newline, // and /* */ comments) sets one of them and only the newline arm may touch at_bol; a buffer starts at_bol; copy_token copies everything but `next`; the first token of every expansion, of every substituted argument, and every stringized/pasted/dynamic token takes the white-space flag of the token it stands for, other tokens keep theirs', floor=16)
+    rep.rule('R19.2', 'separator flags propagate: new_token records and clears at_bol/has_space; every white-space-skipping arm of tokenize (blank, newline, // and /* */ comments) sets one of them and only the newline arm may touch at_bol; a buffer starts at_bol; copy_token copies everything but `next`; the first token of every expansion, of every substituted argument, and every stringized/pasted/dynamic token takes the white-space flag of the token it stands for, other tokens keep theirs', floor=36)
     A = Agg(rep)
     # -- new_token
     it = PInterp(P, u, {'track_stores': True, 'globals': {'current_file': lambda ctx: Obj('File', lazy=True, label='current_file')}})
@@ -382,7 +452,7 @@ def r_expand(P, rep, protect):
     fn = 'expand_macro'
     it, paths = explore_expand(P, u)
     where = '%s:%d' % (PU, u.fn(fn).line)
-    rep.rule('R19.3', 'expansion boundaries: at every splice (object-like, function-like, dynamic macro, substituted argument) either the printer looks at the neighbouring spellings or the splice forces a separator on the first token of the replacement and on the first token after it', floor=7)
+    rep.rule('R19.3', 'expansion boundaries: at every splice (object-like, function-like, dynamic macro, substituted argument) either the printer looks at the neighbouring spellings or the splice forces a separator on the first token of the replacement and on the first token after it', floor=8)
     A = Agg(rep)
     seen = set()
     for ctx, out, rest in paths:
@@ -475,7 +545,7 @@ def r_subst(P, rep, protect):
     fn = 'subst'
     it, paths, classes = explore_subst(P, u)
     A = Agg(rep)
-    seen = {'arg-first': 0, 'arg-second': 0, 'stringized': 0, 'pasted': 0}
+    seen = {'arg-first': 0, 'arg-second': 0, 'stringized': 0, 'pasted': 0, 'paste-lhs-argument-first-token': 0, 'paste-empty-lhs-result': 0}
     w0 = '%s:%d' % (PU, u.fn(fn).line)
     for ctx, out in paths:
         if out[0] != 'ret':
@@ -522,6 +592,30 @@ def r_subst(P, rep, protect):
                         touched = [s for s in stores if s[1] is c or s[1] is src]
                         A.ob('R19.2', '%s:%s:argument-inner-tokens-keep-flags' % (PU, fn), not touched,
                              'the %s flag of the parameter token is written into a token in the middle of a substituted argument: line breaks/blanks inside a multi-line argument are lost (`a +<newline>++b` -> `a +++b`) or invented' % (touched[0][2] if touched else ''), where, facts)
+            elif e[1] == 'copy_token':
+                o = e[2][0]
+                c = e[4]
+                src = None
+                if id(o) in sp.raw and sp.raw[id(o)][1] == 0:
+                    T = sp.raw[id(o)][0]
+                    nx, pr = sp.next_of(T), sp.pred_of(T)
+                    pp = sp.pred_of(pr) if pr is not None else None
+                    if pr is not None and sp.cls(pr) == {'##'} and pp is not None and sp.cls(pp) == {PARAM}:
+                        src, case = pp, 'paste-empty-lhs-result'        # `a ## b` with a empty: b's tokens stand where a stood
+                    elif nx is not None and sp.cls(nx) == {'##'}:
+                        src, case = T, 'paste-lhs-argument-first-token'
+                elif id(o) in sp.body_ids:
+                    pr = sp.pred_of(o)
+                    pp = sp.pred_of(pr) if pr is not None else None
+                    if pr is not None and sp.cls(pr) == {'##'} and pp is not None and sp.cls(pp) == {PARAM}:
+                        src, case = pp, 'paste-empty-lhs-result'
+                if src is not None:
+                    seen[case] = seen.get(case, 0) + 1
+                    hs = _flag_state(it, c, src, 'has_space')
+                    ab = _flag_state(it, c, src, 'at_bol')
+                    msg = {'paste-lhs-argument-first-token': 'the first token of an argument substituted as the left operand of ## keeps the white-space flag it had inside the invocation instead of the parameter\'s: `1 a##b` with C(y,z) stringizes as `1yz`',
+                           'paste-empty-lhs-result': 'when the left operand of ## is an empty argument, the right operand is copied with its own white-space flag instead of the left parameter\'s: `1 a##b` with E(,z) stringizes as `1z`'}[case]
+                    A.ob('R19.2', '%s:%s:%s-has_space' % (PU, fn, case), hs == 'inherited', msg + ' (flag is %s)' % hs, where, facts)
             elif e[1] == 'stringize':
                 h = as_obj(it, e[2][0])
                 z = e[4]
